@@ -39,6 +39,17 @@ from random import shuffle, random
 log = core.getLogger()
 
 
+def _is_stale (event):
+  """
+  Is this the ConnectionDown of a connection the switch has already replaced?
+
+  (A switch that restarts can be back before its old connection is noticed
+  to be dead.  When that one finally goes, the switch is still there.)
+  """
+  con = core.openflow.getConnection(event.dpid)
+  return con is not None and con is not event.connection
+
+
 class LLDPSender (object):
   """
   Sends out discovery packets
@@ -103,6 +114,7 @@ class LLDPSender (object):
     self._set_timer()
 
   def _handle_openflow_ConnectionDown (self, event):
+    if _is_stale(event): return
     self.del_switch(event.dpid)
 
   def del_switch (self, dpid, set_timer = True):
@@ -320,6 +332,7 @@ class Discovery (EventMixin):
       self.install_flow(event.connection)
 
   def _handle_openflow_ConnectionDown (self, event):
+    if _is_stale(event): return
     # Delete all links on this switch
     self._delete_links([link for link in self.adjacency
                         if link.dpid1 == event.dpid
